@@ -806,17 +806,27 @@ LAYERED_HAND = [
     ('hand/labelled-ring-of-units', '{[#U]1[#V][#W]1}.{#U=[<c][#p][#q][>a],#V=[<a][#r][#s][>b],#W=[<b][#t][#u][>c]}.'
      '{#p=[$1]C[$6],#q=[$1]C[$2],#r=[$2]C[$3],#s=[$3]C[$4],#t=[$4]C[$5],#u=[$5]C[$6]}',
      '{[#p]1[#q][#r][#s][#t][#u]1}.{#p=[$1]C[$6],#q=[$1]C[$2],#r=[$2]C[$3],#s=[$3]C[$4],#t=[$4]C[$5],#u=[$5]C[$6]}', True),
+    # an intermediate fragment with a multiplied node FOLLOWED by a node that carries the link to the next unit. Fifth field
+    # 'same': whichever compatible pair the search takes, both strings give the same molecule (every unit with two equal
+    # descriptors is symmetric), so the two results are compared even when one of them leaves an edge without a bond
+    ('hand/multiplied-then-link', '{[#G1][#G2]}.{#G1=[#W]|2[#X][$a],#G2=[$a][#Y]}.{#W=[$]CC[$],#X=[$]C[$a],#Y=[$a]CO}',
+     '{[#W]|2[#X][#Y]}.{#W=[$]CC[$],#X=[$]C[$a],#Y=[$a]CO}', True, 'same'),
+    ('hand/multiplied-then-link-coarse', '{[#G1][#G2][#G1]}.{#G1=[#P]|3[#Q][$a],#G2=[$a][#S][$a]}.'
+     '{#P=[$][#p1][$],#Q=[$][#q1][#q2][$b],#S=[$b][#s1][$b]}',
+     '{[#P]|3[#Q][#S][#Q][#P]|3}.{#P=[$][#p1][$],#Q=[$][#q1][#q2][$b],#S=[$b][#s1][$b]}', False, 'same'),
 ]
 
 
 def layered_cases(tier, seed):
-    for cid, s, flat, aa in LAYERED_HAND:
+    for cid, s, flat, aa, *more in LAYERED_HAND:
         i = s.index('}.{')
         c = {'id': 'layered-hand/' + cid, 'base': None, 'base_str': s[:i + 1], 'blocks': _split_blocks(s[i + 2:]),
              'all_atom': aa, 'legacy': True, 'valid': True, 'design': 'hand', 'bonds': None, 'tags': ['layered', 'hand']}
         if flat:
             j = flat.index('}.{')
             c['flat'] = {'base': None, 'base_str': flat[:j + 1], 'blocks': _split_blocks(flat[j + 2:])}
+        if 'same' in more:
+            c['same_molecule'] = True
         yield c
     # exhaustive part: every connected graph up to N nodes, 'unique' design at the bottom, seeded by the case index
     max_n = 4 if tier == 'quick' else 5
